@@ -54,6 +54,9 @@ def inputs_a(bpt, tier):
 
 class C01(Check):
     pid = "C01"
+    level_text = (
+        "Bounded exhaustive: every (input, Pretext) pair of the stated scopes is executed on the real remapping code and the returned assemblies are checked to partition the input contigs exactly (or the run raised). Right level because the defects are boundary coincidences (sub-texel contig x cut x second resolver round) that a finite scope containing all combinations reaches by construction; nothing is claimed outside the scope."
+    )
     technique = (
         "exhaustive scope enumeration on the real BuildAssembly: input assemblies x PretextView-model edit scripts (all cut sets, "
         "permutations, orientations, groupings, floor/ceil texel counts), tagged scripts, single-step perturbations and arbitrary bait "
